@@ -251,7 +251,10 @@ def run_check(modname, tier, seed, quiet=False):
     if nshards and seed:
         r = seed % nshards
         shards = shards[r:] + shards[:r]
-    budget = float(os.environ.get("VERIF_BUDGET", prop.budget.get(tier, 150)))
+    # wall budget: the property's own figure, but never below a floor that a loaded machine needs;
+    # past it the remaining shards are skipped and reported as CAP (exhaustive=False), never as a verdict
+    floor = {"quick": 900, "thorough": 5400}.get(tier, 900)
+    budget = float(os.environ.get("VERIF_BUDGET", max(prop.budget.get(tier, 150), floor)))
     deadline = t0 + budget
     total = Acc(pid)
     nproc = min(NPROC, max(1, nshards))
